@@ -39,6 +39,9 @@ pub struct Registry {
     pub substance_symbols: BTreeMap<String, String>,
 }
 
+/// How many aliases of aliases are expanded when canonicalizing a name.
+const MAX_ALIAS_DEPTH: usize = 64;
+
 impl Registry {
     fn lookup_exact(&self, name: &str) -> Option<Number> {
         if let Some(k) = self.base_units.get(name) {
@@ -80,7 +83,7 @@ impl Registry {
         }
     }
 
-    fn canonicalize_exact(&self, name: &str) -> Option<String> {
+    fn canonicalize_exact(&self, name: &str, depth: usize) -> Option<String> {
         if let Some(v) = self.base_unit_long_names.get(name) {
             return Some(v.clone());
         }
@@ -89,7 +92,12 @@ impl Registry {
         }
         if let Some(expr) = self.definitions.get(name) {
             if let Expr::Unit { ref name } = *expr {
-                if let Some(canonicalized) = self.canonicalize(&*name) {
+                // Alias chains are followed, but not in circles: user files
+                // loaded on top of the database can close a loop of aliases.
+                if depth >= MAX_ALIAS_DEPTH {
+                    return Some(name.clone());
+                }
+                if let Some(canonicalized) = self.canonicalize_depth(&*name, depth + 1) {
                     return Some(canonicalized);
                 } else {
                     return Some(name.clone());
@@ -102,13 +110,13 @@ impl Registry {
         None
     }
 
-    fn canonicalize_with_prefix(&self, name: &str) -> Option<String> {
-        if let Some(v) = self.canonicalize_exact(name) {
+    fn canonicalize_with_prefix(&self, name: &str, depth: usize) -> Option<String> {
+        if let Some(v) = self.canonicalize_exact(name, depth) {
             return Some(v);
         }
         for &(ref prefix, ref value) in &self.prefixes {
             if let Some(name) = name.strip_prefix(prefix) {
-                if let Some(canonicalized) = self.canonicalize_exact(name) {
+                if let Some(canonicalized) = self.canonicalize_exact(name, depth) {
                     let mut prefix = prefix;
                     for &(ref other, ref otherval) in &self.prefixes {
                         if other.len() > prefix.len() && value == otherval {
@@ -130,9 +138,13 @@ impl Registry {
     /// * `mm` -> `millimeter` (prefixes are converted to long form)
     /// * `micron` -> `micrometer` (aliases are expanded)
     pub fn canonicalize(&self, name: &str) -> Option<String> {
-        let res = self.canonicalize_with_prefix(name).or_else(|| {
+        self.canonicalize_depth(name, 0)
+    }
+
+    fn canonicalize_depth(&self, name: &str, depth: usize) -> Option<String> {
+        let res = self.canonicalize_with_prefix(name, depth).or_else(|| {
             name.strip_suffix('s')
-                .and_then(|name| self.canonicalize_with_prefix(name))
+                .and_then(|name| self.canonicalize_with_prefix(name, depth))
         });
 
         // The canonical name has to denote the same value as the name it
